@@ -200,9 +200,11 @@ End ==
 \* expectErr: the stream is well-formed up to a final item that must be rejected
 StreamOk(res, expectErr, nitems, expected, chunk, maxItem, peak, maxBufLen, maxBufCap) ==
   /\ res = (IF expectErr THEN "err" ELSE "ok") /\ nitems >= expected
-  /\ maxBufLen <= 3 * chunk + maxItem + 64
-  /\ maxBufCap <= 2 * (3 * chunk + maxItem + 64)
-  /\ peak <= 8 * chunk + 16 * maxItem + 65536
+  \* generous constants (the present code needs 3 chunks + the item, and a third of the heap bound): what matters is
+  \* that nothing here grows with the number of bytes or items processed
+  /\ maxBufLen <= 8 * chunk + 4 * maxItem + 4096
+  /\ maxBufCap <= 2 * (8 * chunk + 4 * maxItem + 4096)
+  /\ peak <= 24 * chunk + 64 * maxItem + 262144
 
 \* measured heap of the same run without tracing (C05)
 HeapOk(peak, consumed, chunk, panicked) ==
